@@ -110,7 +110,7 @@ def domain(ctx):
                     cases.append({"buf": [ord(c) for c in pre + w + post], "funcs": funcs})
     # strings that look like other numeric notations, and code points that case-fold / normalise to ASCII letters or digits
     import unicodedata
-    looks = ["3e-5x", "1e5", "2E3", "1e+5", "1.5e-3", ".5e2", "5.e1", "1e", "e5", "3e-x", "3e -5", "0x1F", "0b101", "0o17", "1_000", "1j", "2i", "inf", "nan", "NaN",
+    looks = ["4x\r\ny", "7 +\r\n2x", "2\r\n3x", "x\r\n+ 1", "\r\nx", "x\r\n", "2\r\n\r\n3", "4\rx", "4\n\rx", "\r", "\r\r\n", " \r\n ", "sgn\r\n(x)", "3e-5x", "1e5", "2E3", "1e+5", "1.5e-3", ".5e2", "5.e1", "1e", "e5", "3e-x", "3e -5", "0x1F", "0b101", "0o17", "1_000", "1j", "2i", "inf", "nan", "NaN",
              "Infinity", "-inf", "1,5", "1'000", "½", "²", "x²", "１２", "٣", "४2", "2\u00a0+\u00a03", "2\u2009x", "x\u200b", "\ufeff2", "2\u2212x", "2\u00d73", "6\u00f72",
              "2\u22c5x", "\u212a", "\u0130", "\u017f", "\u00b5", "\u2126", "\u00e5", "s\u0323gn", "sgn\u0301", "\u0073gn(x)", "s\u200dgn"]
     for w in looks:
@@ -128,9 +128,14 @@ def domain(ctx):
         asciiish = any(f and all(ord(x) < 128 for x in f) and any(x.isalnum() or x in "+-*/^!=()[]. " for x in f) for f in forms)
         if asciiish or ch.isdigit() or ch.isspace() or ch.isnumeric() or not ctx.quick and ch.isalpha() and cp < 0x600:
             special.append(cp)
+    # every ASCII control character (form feed, vertical tab, the separators 28..31, NUL, DEL): only tab, line feed, carriage return are blanks
+    special = [c for c in range(0, 32) if c not in (9, 10, 13)] + [127] + special
     for cp in special + [0x1D7D8, 0x1D465, 0x1F600, 0xFF0B, 0xFF0D, 0x2795]:
         cases.append({"buf": [cp], "funcs": [SGN]})
         cases.append({"buf": [50, cp, 120], "funcs": [SGN]})
+        if cp < 128:
+            cases.append({"buf": [50, 32, cp, 32, 120], "funcs": [SGN]})
+            cases.append({"buf": [cp, cp], "funcs": [SGN, ABS]})
     # long maximal runs (a scanner with a bounded look-ahead window must not cut them)
     for n in [15, 16, 17, 31, 32, 33, 34, 63, 64, 65, 66, 127, 128, 129, 257]:
         for ch in ("7", "1.", "x", "sgn", " ", " \t", "+", "("):
@@ -194,7 +199,7 @@ def run(ctx, cases=None):
     res.samples = [{"text": "".join(map(chr, e["buf"])), "keep": e["keep"], "drop_ok": e["drop"]["ok"]} for e in events[4000:4003] + events[-2:]]
     res.extra["validator"] = st
     res.assumptions = ["characters are compared as code points; the representative alphabet stands for its character classes",
-                       "form feed / vertical tab are outside the 'supported alphabet' and are not explored as whitespace"]
+                       "characters are judged by class; every ASCII control character other than tab / line feed / carriage return is in the 'unsupported' class (must be refused)"]
     for eid, clauses in sorted(fails.items()):
         ev = events[eid - 1]
         text = "".join(map(chr, ev["buf"]))
